@@ -118,3 +118,172 @@ Theorem C16_cleanup_is_order_independent :
     Model.SyncMapIR.iter K V eqb (Proofs.SyncMapIRTie.del_cb K V eqb c) ord m = filter (fun kv => negb (c (fst kv) (snd kv))) m.
 Proof. exact Proofs.SyncMapIRTie.delete_where_is_filter. Qed.
 Print Assumptions C16_cleanup_is_order_independent.
+
+(* ================= time.Ticker and the loop that consumes it (Model/Ticker.v) =================
+   Until here a "tick" was a number.  Now: the ticker of period I started at T0 does a NON-BLOCKING send into a channel of
+   capacity 1 at every T0 + k*I, k >= 1 ([fire]: into the slot if it is empty, dropped otherwise); Read's loop is a schedule
+   [frees] = the instants at which it is at its select and takes the tick arm if a tick is there (arbitrary: between
+   them it handles a login, an audit event, is blocked in a write, or select took another ready arm); [consumed I T0 frees]
+   are the cleanups (consumption time c, tick index k) and [cleanup_ops I T0 frees] the correlator operations they perform:
+   both sweeps with cut-off c - I.  Stage harness/ticker compares [consumed] / [dropped] with the real time.Ticker on every
+   run.  All statements: for EVERY period, start and schedule. *)
+From AM Require Model.Ticker Proofs.TickerLemmas.
+Import Model.Ticker.
+Open Scope Z_scope.
+
+(* What the GENERATED Read does with a consumed tick: the period of its ticker is the interval, and running the tick arm
+   of Gen/AuditProg.v at clock reading c (the arm's statements interpreted as they are written: the cut-off expression,
+   both sweeps on it, nothing else) is [cleanup_ops]: cut-off = consumption time - interval, NOT the tick's value and not
+   the previous cleanup.  Regenerated on every run: another cut-off expression / period / arm body breaks this proof. *)
+Theorem C16_ticker_cleanups_from_source : forall T0 frees,
+  cleanup_ops_gen (AuditIR.pg_read AuditProg.gen_audit) T0 frees =
+  Some (cleanup_ops Gen.Consts.staleDataCleanupInterval_ns T0 frees).
+Proof. exact Proofs.TickerLemmas.cleanups_from_source. Qed.
+Print Assumptions C16_ticker_cleanups_from_source.
+
+(* The ticker.  At most one tick is buffered and it is the EARLIEST undelivered one: however many boundaries pass,
+   what waits in the slot stays (the later ticks are the ones lost). *)
+Theorem C16_ticker_one_buffered : forall n st k, slot st = Some k -> slot (fire_n n st) = Some k.
+Proof. exact Proofs.TickerLemmas.fire_n_keeps_buffered. Qed.
+Print Assumptions C16_ticker_one_buffered.
+
+(* The step-by-step model (advance = fire the due boundaries one by one, then a non-blocking receive) has a closed form:
+   the loop consumes tick n at the first free instant at or after T0 + n*I, and the next tick that can be delivered is
+   the first boundary AFTER that instant (the boundaries in between were lost to the full slot). *)
+Theorem C16_ticker_closed_form : forall I T0 frees, 0 < I -> consumed I T0 frees = consumed_cf I T0 1 frees.
+Proof. intros I T0 frees HI. apply Proofs.TickerLemmas.consumed_closed_form. exact HI. Qed.
+Print Assumptions C16_ticker_closed_form.
+
+(* Every cleanup runs at a free instant, at or after its tick's boundary; of two consecutive cleanups the second one's
+   tick is the first boundary after the first cleanup - so no two cleanups without a boundary in between, the indices
+   increase, and that boundary is at most one period after the first cleanup (the grid does not move).  There is NO lower
+   bound on c2 - c1 other than 0: an overdue tick followed by a punctual one (C16_ticker_example). *)
+Theorem C16_ticker_consumption : forall I T0 frees, 0 < I ->
+  (forall c k, In (c, k) (consumed I T0 frees) -> In c frees /\ 1 <= k /\ T0 + k * I <= c) /\
+  (forall pre c1 k1 c2 k2 post, consumed I T0 frees = pre ++ (c1, k1) :: (c2, k2) :: post ->
+     k2 = (c1 - T0) / I + 1 /\ k1 < k2 /\ c1 < T0 + k2 * I <= c2 /\ T0 + k2 * I <= c1 + I) /\
+  (forall frees2, exists rest, consumed I T0 (frees ++ frees2) = consumed I T0 frees ++ rest).
+Proof.
+  intros I T0 frees HI. split; [|split].
+  - intros c k. apply Proofs.TickerLemmas.consumed_facts. exact HI.
+  - intros pre c1 k1 c2 k2 post. apply Proofs.TickerLemmas.consumed_consecutive. exact HI.
+  - intros frees2. apply Proofs.TickerLemmas.consumed_prefix. exact HI.
+Qed.
+Print Assumptions C16_ticker_consumption.
+
+(* Liveness, schedules in time order: if the loop is free at some instant f at or after the boundary of tick k, a cleanup
+   runs in [T0 + k*I, f] (tick k's, or that of an earlier tick that was still waiting); the cleanup of a delivered tick
+   runs at the FIRST free instant from its boundary on; hence, if the loop is free somewhere in [boundary, boundary + d]
+   (no busy interval longer than d), consecutive cleanups are more than 0 and at most I + d apart. *)
+Theorem C16_ticker_liveness : forall I T0 frees, 0 < I -> Proofs.TickerLemmas.sorted frees ->
+  (forall k f, 1 <= k -> In f frees -> T0 + k * I <= f ->
+     exists c k', In (c, k') (consumed I T0 frees) /\ T0 + k * I <= c <= f) /\
+  (forall pre c k post, consumed I T0 frees = pre ++ (c, k) :: post ->
+     forall f, In f frees -> T0 + k * I <= f -> c <= f) /\
+  (forall pre c1 k1 c2 k2 post d, consumed I T0 frees = pre ++ (c1, k1) :: (c2, k2) :: post ->
+     (exists f, In f frees /\ T0 + k2 * I <= f <= T0 + k2 * I + d) -> c1 < c2 <= c1 + I + d).
+Proof.
+  intros I T0 frees HI Hs. split; [|split].
+  - intros k f Hk Hin Hf. apply Proofs.TickerLemmas.consumed_served; assumption.
+  - intros pre c k post H f Hin Hf. eapply Proofs.TickerLemmas.consumed_first_free; eassumption.
+  - intros pre c1 k1 c2 k2 post d H Hf. eapply Proofs.TickerLemmas.consumed_gap; eassumption.
+Qed.
+Print Assumptions C16_ticker_liveness.
+
+(* KEEPS - generalises C16_window_keeps from punctual ticks to consumption times: a half that arrived at a survives
+   every cleanup executed at a time c <= a + I, WHATEVER the delays of the loop; in particular (second statement) as
+   long as the clock has not passed a + I no schedule at all discards it. *)
+Theorem C16_ticker_keeps : forall (s : N) (p : Z) (I : Z), 0 < I -> forall T0 frees,
+  (forall a evs, (forall c k, In (c, k) (consumed I T0 frees) -> c <= a + I) ->
+     prun s p (PHeld a evs) (cleanup_ops I T0 frees) = (PHeld a evs, []) /\
+     keeps_run s p (PHeld a evs) (cleanup_ops I T0 frees)) /\
+  (forall l, (forall c k, In (c, k) (consumed I T0 frees) -> c <= l_at l + I) ->
+     prun s p (PParked l) (cleanup_ops I T0 frees) = (PParked l, []) /\
+     keeps_run s p (PParked l) (cleanup_ops I T0 frees)).
+Proof. intros s p I HI T0 frees. apply Proofs.TickerLemmas.ticker_keeps. Qed.
+Print Assumptions C16_ticker_keeps.
+
+Theorem C16_ticker_keeps_until : forall (s : N) (p : Z) (I : Z), 0 < I -> forall T0 frees a evs,
+  (forall f, In f frees -> f <= a + I) ->
+  prun s p (PHeld a evs) (cleanup_ops I T0 frees) = (PHeld a evs, []) /\
+  keeps_run s p (PHeld a evs) (cleanup_ops I T0 frees).
+Proof. intros s p I HI T0 frees a evs. apply Proofs.TickerLemmas.ticker_keeps_until. exact HI. Qed.
+Print Assumptions C16_ticker_keeps_until.
+
+(* Exactly, for every schedule: the half is discarded iff some cleanup runs after a + I. *)
+Theorem C16_ticker_window_exact : forall (s : N) (p : Z) (I : Z) T0 frees a evs,
+  prun s p (PHeld a evs) (cleanup_ops I T0 frees) =
+  if existsb (fun ck => a + I <? fst ck) (consumed I T0 frees) then (PClean, []) else (PHeld a evs, []).
+Proof. exact Proofs.TickerLemmas.ticker_window_exact. Qed.
+Print Assumptions C16_ticker_window_exact.
+
+(* DROPS: the processor was started at or before a; the schedule is in time order and, for every t in (a + I, a + 2I],
+   the loop is free at some instant of [t, t + d] (no busy interval longer than d there).  Then a cleanup runs at some c
+   in (a + I, a + 2I + d] and the half is gone; with d = 0 (a loop that is always at its select) this is
+   C16_window_drops.  Afterwards silent: nothing of the session is emitted until a new LOGIN record of it arrives. *)
+Theorem C16_ticker_drops : forall (s : N) (p : Z) (I : Z), 0 < I -> forall T0 frees d, Proofs.TickerLemmas.sorted frees ->
+  (forall a evs, T0 <= a ->
+     (forall t, a + I < t <= a + 2 * I -> exists f, In f frees /\ t <= f <= t + d) ->
+     (exists c k, In (c, k) (consumed I T0 frees) /\ a + I < c <= a + 2 * I + d) /\
+     prun s p (PHeld a evs) (cleanup_ops I T0 frees) = (PClean, [])) /\
+  (forall l, T0 <= l_at l ->
+     (forall t, l_at l + I < t <= l_at l + 2 * I -> exists f, In f frees /\ t <= f <= t + d) ->
+     (exists c k, In (c, k) (consumed I T0 frees) /\ l_at l + I < c <= l_at l + 2 * I + d) /\
+     prun s p (PParked l) (cleanup_ops I T0 frees) = (PClean, [])).
+Proof. intros s p I HI T0 frees d. apply Proofs.TickerLemmas.ticker_drops. exact HI. Qed.
+Print Assumptions C16_ticker_drops.
+
+Theorem C16_ticker_drops_then_silent : forall (s : N) (p : Z) (I : Z), 0 < I -> forall T0 frees d a evs B,
+  Proofs.TickerLemmas.sorted frees -> T0 <= a ->
+  (forall t, a + I < t <= a + 2 * I -> exists f, In f frees /\ t <= f <= t + d) ->
+  (forall o, In o B -> is_rec s p o = false) ->
+  snd (prun s p (PHeld a evs) (cleanup_ops I T0 frees ++ B)) = [] /\
+  (fst (prun s p (PHeld a evs) (cleanup_ops I T0 frees ++ B)) = PClean \/
+   exists l, fst (prun s p (PHeld a evs) (cleanup_ops I T0 frees ++ B)) = PParked l).
+Proof. intros s p I HI T0 frees d a evs B. apply Proofs.TickerLemmas.ticker_drops_then_silent. exact HI. Qed.
+Print Assumptions C16_ticker_drops_then_silent.
+
+(* THE CUT-OFF MUST BE now - I.  For the variant whose cut-off is the time of the previous cleanup (the start for the
+   first one) the KEEPS statement is false: period 10 from 0, the loop held up over tick 1 (boundary 10) until 17, then
+   punctual (tick 2 at 20): the cleanup at 20 has cut-off 17 and discards a LOGIN record that arrived at 12 - eight time
+   units old - although every cleanup ran at a time <= 12 + 10; the source's cut-off (20 - 10 = 10) keeps it.  This is
+   why the cut-off expression is part of the generated obligation (C16_ticker_cleanups_from_source). *)
+Theorem C16_ticker_previous_cleanup_cutoff_refuted :
+  exists (I T0 a : Z) (frees : list Z) (evs : list aev),
+    0 < I /\ T0 <= a /\ Proofs.TickerLemmas.sorted frees /\
+    (forall c k, In (c, k) (consumed I T0 frees) -> c <= a + I) /\
+    fst (prun 3 30 (PHeld a evs) (cleanup_ops_prev I T0 frees)) = PClean /\
+    fst (prun 3 30 (PHeld a evs) (cleanup_ops I T0 frees)) = PHeld a evs.
+Proof. exact Proofs.TickerLemmas.previous_cleanup_cutoff_refuted. Qed.
+Print Assumptions C16_ticker_previous_cleanup_cutoff_refuted.
+
+(* Non-vacuity.  Period 100 from 0, the loop busy over [60, 210) - a 1.5-period stall - and otherwise idle up to 450:
+   free instants 210, 300, 400; tick 1 waits in the slot and is consumed at 210, tick 2 is lost, ticks 3 and 4 are on
+   time; the cleanups 210 and 300 are only 90 apart (an overdue tick, then a punctual one).  A LOGIN record that arrived
+   at 150 survives the cleanup at 210 (cut-off 110) and is discarded by the one at 300 (cut-off 200), which lies in
+   (150 + 100, 150 + 2*100 + 150]; a record that arrived at 350 is still held at the end. *)
+Example C16_ticker_example :
+  let e := {| a_id := 0; a_ses := SId 3; a_type := TLogin; a_pid := Some 30 |} in
+  let frees := frees_of_busy 100 0 [(60, 210)] 450 in
+  frees = [210; 300; 400] /\
+  consumed 100 0 frees = [(210, 1); (300, 3); (400, 4)] /\ dropped 100 0 frees = [2] /\
+  cleanup_ops 100 0 frees = [CleanSess 110; CleanLogins 110; CleanSess 200; CleanLogins 200; CleanSess 300; CleanLogins 300] /\
+  Proofs.TickerLemmas.sorted frees /\
+  fst (prun 3 30 (PHeld 150 [e]) (cleanup_ops 100 0 [210])) = PHeld 150 [e] /\
+  fst (prun 3 30 (PHeld 150 [e]) (cleanup_ops 100 0 frees)) = PClean /\
+  fst (prun 3 30 (PHeld 350 [e]) (cleanup_ops 100 0 frees)) = PHeld 350 [e] /\
+  (* the hypothesis of C16_ticker_drops for a = 150, d = 150: every t in (250, 350] has a free instant in [t, t + 150] *)
+  (forall t, 150 + 100 < t <= 150 + 2 * 100 -> exists f, In f frees /\ t <= f <= t + 150).
+Proof.
+  cbv zeta. change (frees_of_busy 100 0 [(60, 210)] 450) with [210; 300; 400].
+  split; [reflexivity|]. split; [vm_compute; reflexivity|]. split; [vm_compute; reflexivity|].
+  split; [vm_compute; reflexivity|]. split; [cbn [Proofs.TickerLemmas.sorted In]; intuition lia|].
+  split; [vm_compute; reflexivity|]. split; [vm_compute; reflexivity|]. split; [vm_compute; reflexivity|].
+  intros t Ht. destruct (Z.le_gt_cases t 300); [exists 300|exists 400]; cbn [In]; lia.
+Qed.
+
+(* the generated Read under the same schedule, in nanoseconds: one minute period, loop held up over the first boundary *)
+Example C16_ticker_example_generated :
+  cleanup_ops_gen (AuditIR.pg_read AuditProg.gen_audit) 0 [90000000000; 120000000000] =
+  Some [CleanSess 30000000000; CleanLogins 30000000000; CleanSess 60000000000; CleanLogins 60000000000].
+Proof. vm_compute. reflexivity. Qed.
